@@ -1,5 +1,5 @@
 (* DSF family, C09: _DSFID3.save hands _prepare_data available = extent from the metadata pointer to EOF
-   (0 when the tag is created at EOF); a tag of the old size leaves the file size and every byte before the pointer
+   (0 when the tag is created at EOF), nothing follows the tag (info.size = 0); a tag of the old size leaves the file size and every byte before the pointer
    (all three header fields included) unchanged; the prepared tag is always one exact ID3v2 tag, so a save through
    _prepare_data keeps the file well-formed without further hypotheses. *)
 From Coq Require Import ZArith List Bool Lia.
@@ -20,11 +20,14 @@ Qed.
 
 Theorem dsf_save_cb_decompose f s fd ver cb f' : dsf_parse f = Ok s -> dsf_save_cb f fd ver cb = Ok f' ->
   let avail := zlen (tag_bytes (d_tag s)) in
-  exists tag, id3_prepare fd ver cb avail avail = Ok tag /\ dsf_save f tag = Ok f'.
+  exists tag, id3_prepare fd ver cb avail 0 = Ok tag /\ dsf_save f tag = Ok f'.
 Proof.
   intros Hp Hsv avail. destruct (dsf_parse_sound f s Hp) as [Ef Hok]. subst f.
   unfold dsf_save_cb in Hsv. rewrite (dsf_target_render _ _ Hok) in Hsv. cbn [rbind snd] in Hsv. fold avail in Hsv.
-  destruct (id3_prepare fd ver cb avail avail) as [tag|e]; cbn [rbind] in Hsv; [|discriminate].
+  assert (Et : dsf_trailing (dsf_render (d_audio s) (d_tag s)) (28 + zlen (d_audio s), avail) = 0).
+  { unfold dsf_trailing, trailing_size. cbn [fst snd]. rewrite dsf_render_zlen. fold avail. lia. }
+  rewrite Et in Hsv.
+  destruct (id3_prepare fd ver cb avail 0) as [tag|e]; cbn [rbind] in Hsv; [|discriminate].
   exists tag. split; [reflexivity | exact Hsv].
 Qed.
 
@@ -37,7 +40,7 @@ Proof.
   destruct (id3_prepare_spec _ _ _ _ _ _ Hpr) as (P0 & L & (sz & Lsz & Et) & Hex). cbv zeta in *.
   split; [eapply dsf_save_wf; eassumption|]. exists tag. split; [eapply dsf_load_after_save; eassumption|].
   exists sz. split; [exact Lsz|]. rewrite L.
-  match goal with |- context [zeros ?x] => replace x with (cb (zlen (tag_bytes (d_tag s)) - (zlen fd + 10)) (zlen (tag_bytes (d_tag s)))) by lia end.
+  match goal with |- context [zeros ?x] => replace x with (cb (zlen (tag_bytes (d_tag s)) - (zlen fd + 10)) 0) by lia end.
   exact Et.
 Qed.
 
